@@ -448,11 +448,12 @@ class Analyzer:
 
 def main(tier):
     chk = Check("C13", tier,
-                "Static seeding discipline only: every function taking a seed and every class storing one sets the "
+                "Static seeding and indexing discipline only: every function taking a seed and every class storing one sets the "
                 "process-wide generator from that seed on every CFG path before its first (transitive) draw; no seed is "
-                "stored and never used; temporary reseeding is undone on every exit. A necessary condition of 'same inputs "
-                "and seed give the same result'; bit-identity, distinct seeds giving distinct results, conditioning and "
-                "bounds are NOT decided.")
+                "stored and never used; temporary reseeding is undone on every exit; the Gibbs samplers address the data base with sample "
+                "ranks, never with ranks among active samples; conditioning loops skip an undefined datum without stopping. Necessary conditions of 'same inputs "
+                "and seed give the same result' and of 'bounds / data are those of the sample simulated'; bit-identity, distinct seeds "
+                "giving distinct results, exactness of the conditioning kriging and the bounded draws themselves are NOT decided.")
     d = os.environ.get("GSA_REUSE") or extract(facts.all_units(), "C13-" + tier)
     prog = Program().load_dir(d)
     dh, excluded = facts.extract_headers("C13h-" + tier)
@@ -613,6 +614,9 @@ def main(tier):
     chk.floor("S3", n3, 1)
     import c13_kinds
     c13_kinds.s4(prog, chk)
+    # S5: conditioning loops skip an undefined datum, they do not stop at it (shared rule with C05d, simulation sources only)
+    import c05_skip
+    c05_skip.rule_d(prog, chk, 1, rule="S5", only_files=("src/Simulation/", "src/Core/simtub", "src/Gibbs/", "src/LithoRule/"))
     for k in sorted(an.assumed):
         chk.assumptions.append("draw %s in %s treated as seeded: %s" % (k[1], k[0], ASSUMED_SEEDED[k]))
     return chk.finish()
